@@ -36,6 +36,8 @@ def run(ctx):
         return
     r02_1(ctx, rep, roles, adm, app)
     r02_2(ctx, rep, roles, app)
+    from . import c06
+    c06.r06_3(ctx, rep, roles, prefix="C02/R02.3")
     r02_4(ctx, rep, adm)
     r02_5(ctx, rep, snd)
 
